@@ -118,3 +118,19 @@ Theorem C11_source_regroup_bodies :
   transmute_of "&GenericArray::Unflatten::unflatten" = Some ("transmute", "self") /\
   transmute_of "&mut GenericArray::Unflatten::unflatten" = Some ("transmute", "self").
 Proof. repeat split. Qed.
+
+(* ---- T1: the one-expression bodies this property's code consists of besides the modelled core, as they stand
+        in the source now (coq/gen/GenSigs.v gen_thin_bodies) ---- *)
+From Coq Require Import String.
+From GA Require Import SigTie.
+From GAGen Require Import GenSigs.
+Local Open Scope string_scope.
+
+Theorem C11_source_thin_bodies :
+  thin_of "Flatten<T,N,M> for GenericArray<GenericArray<T,N>,M>" "flatten" = Some "unsafe { crate :: const_transmute (self) }" /\
+  thin_of "Flatten<T,N,M> for &GenericArray<GenericArray<T,N>,M>" "flatten" = Some "unsafe { mem :: transmute (self) }" /\
+  thin_of "Flatten<T,N,M> for &mutGenericArray<GenericArray<T,N>,M>" "flatten" = Some "unsafe { mem :: transmute (self) }" /\
+  thin_of "Unflatten<T,NM,N> for GenericArray<T,NM>" "unflatten" = Some "unsafe { crate :: const_transmute (self) }" /\
+  thin_of "Unflatten<T,NM,N> for &GenericArray<T,NM>" "unflatten" = Some "unsafe { mem :: transmute (self) }" /\
+  thin_of "Unflatten<T,NM,N> for &mutGenericArray<T,NM>" "unflatten" = Some "unsafe { mem :: transmute (self) }".
+Proof. repeat split. Qed.
